@@ -138,7 +138,10 @@ func handleCommandList(params internal.HandlerFuncParams) ([]byte, error) {
 		} else if strings.EqualFold("PATTERN", params.Command[3]) {
 			// Pattern filter
 			commands := params.GetAllCommands()
-			g := glob.MustCompile(params.Command[4])
+			g, err := glob.Compile(params.Command[4])
+			if err != nil {
+				return nil, fmt.Errorf("invalid pattern %s: %v", params.Command[4], err)
+			}
 			for _, command := range commands {
 				if command.SubCommands != nil && len(command.SubCommands) > 0 {
 					for _, subcommand := range command.SubCommands {
